@@ -48,6 +48,22 @@ def run(c):
     jb = jfull['benchmark']
     if jalone is None:
         jalone = j
+    # the rendered text panel of the tearsheet (strategy and benchmark columns)
+    panel = None
+    try:
+        import matplotlib
+        matplotlib.use('Agg')
+        import matplotlib.pyplot as plt
+        tsb = TearsheetStatistics(df.copy(), benchmark_equity=bdf.copy(), periods=P)
+        fig, ax = plt.subplots()
+        tsb._plot_txt_curve(tsb.get_results(df.copy()), bench_stats=tsb.get_results(bdf.copy()), ax=ax)
+        cells = dict(((round(t.get_position()[0], 2), round(t.get_position()[1], 2)), t.get_text()) for t in ax.texts)
+        plt.close(fig)
+        rows = {'total': 6.9, 'cagr': 5.9, 'sharpe': 4.9, 'sortino': 3.9, 'maxdd': 1.9, 'duration': 0.9}
+        panel = {'s': dict((k, cells.get((7.5, y))) for k, y in rows.items()),
+                 'b': dict((k, cells.get((10.0, y))) for k, y in rows.items())}
+    except Exception as e:
+        panel = {'err': type(e).__name__ + ': ' + str(e)[:200]}
     rets = t['returns']
     cum = t['cum_returns']
     dd, mdd, dur = perf.create_drawdowns(cum)
@@ -61,6 +77,9 @@ def run(c):
         'tear': {'sharpe': num(t['sharpe']), 'maxdd': num(t['max_drawdown']), 'maxdd_pct': num(t['max_drawdown_pct']),
                  'duration': int(t['max_drawdown_duration']), 'dd': series(t['drawdowns']), 'returns': series(t['returns']),
                  'cum': series(t['cum_returns'])},
+        'panel': panel,
+        'json_total': num(j['cum_returns'][-1][1] - 1.0) if j['cum_returns'] else None,
+        'bench_total': num(jalone['cum_returns'][-1][1] - 1.0) if jalone['cum_returns'] else None,
         'json_bench_alone': {'sharpe': num(jalone['sharpe']), 'sortino': num(jalone['sortino']), 'cagr': num(jalone['cagr']),
                              'maxdd': num(jalone['max_drawdown']), 'duration': int(jalone['max_drawdown_duration']),
                              'ann_vol': num(jalone['annualised_vol']), 'n': len(jalone['returns'])},
